@@ -41,17 +41,39 @@ def gen(rng, tier):
             s.loads = []
         s.meta = {"kind": "near-axis"}
         cases.append(core.case_from_struct(s, Weight=core.weights(i)))
+    # a uniform downward load over the last part of a bar (it reaches the bar's end, not its start), with and without the weight
+    for i in range(4 if tier == "quick" else 24):
+        s = G.gen_single_bar(rng)
+        b = s.bars[0]
+        if not (b["l1"][2] or b["l2"][2]):
+            b["l1"] = G.LINKS["rigid"]
+        t0 = Fr(rng.choice(["0.35", "0.62", "0.05"]))
+        q = Fr(rng.choice([-3, -40]))
+        s.loads = [{"kind": "d", "term": "fy", "local": False, "bar": b["id"], "t0": t0, "v0": q, "t1": Fr(1), "v1": q}]
+        s.meta = {"kind": "partial-uniform-global"}
+        cases.append(core.case_from_struct(s, Weight=(i % 2 == 0)))
+    # a frame with hundreds of loaded bars, preprocessed a dozen times over in one process (its bars are sliced at the same time)
+    import subprocess
+    from .. import cli
+    big = subprocess.run([cli.BIN, "generate", "--type", "retic", "--spans", "20", "--levels", "10"], stdout=subprocess.PIPE, text=True).stdout
+    for w in (True, False):
+        cases.append({"Text": big, "kind": "large-frame/repeated", "Weight": w, "Repeat": 12 if tier == "quick" else 40, "NoStage": True})
     return cases
 
 
 def oracle(c, o):
     fails = []
-    pre = o["Pre"][0]
     byid = {b["ID"]: b for b in o["Bars"]}
-    for pb in pre["Bars"]:
-        fails += O.c15_bar(byid[pb["ID"]], pb, bool(c.get("Weight")))
-    if sorted(pb["ID"] for pb in pre["Bars"]) != sorted(byid):
-        fails.append("sliced bars %s are not the bars of the input %s" % (sorted(pb["ID"] for pb in pre["Bars"])[:5], sorted(byid)[:5]))
+    for k, pre in enumerate(o["Pre"]):
+        if pre.get("Panic"):
+            continue
+        for pb in pre["Bars"]:
+            if pb["ID"] in byid:
+                fails += [f + (" (preprocessing number %d of the same definition in one process)" % (k + 1) if k else "") for f in O.c15_bar(byid[pb["ID"]], pb, bool(c.get("Weight")))]
+        if sorted(pb["ID"] for pb in pre["Bars"]) != sorted(byid):
+            fails.append("sliced bars %s are not the bars of the input %s" % (sorted(pb["ID"] for pb in pre["Bars"])[:5], sorted(byid)[:5]))
+        if fails:
+            break
     return fails
 
 
@@ -59,7 +81,7 @@ SPEC = {
     "prop_file": "Properties/C15.v",
     "gen": gen,
     "oracle": oracle,
-    "stages": [("B", lambda c, o, rng: S.stageB_case(o, bool(c.get("Weight"))), S.stageB_v, 6, None)],
+    "stages": [("B", lambda c, o, rng: None if c.get("NoStage") else S.stageB_case(o, bool(c.get("Weight"))), S.stageB_v, 6, None)],
     "nontrivial": lambda c, o: any(len(S.load_positions(b)) > 0 for b in o["Bars"]),
     "rule": "single bars (any direction, rigid/pinned ends, 0-6 loads at positions k/10, k/6 displaced by 0, 5e-11, 1e-6, 5e-4, 9.9e-4, 1.1e-3, 2e-3 ...) and frames on a 3a x 4a grid; twin bars whose load positions agree to six or more decimals without being equal; "
             "own weight on every third case; non-trivial iff some bar has an interior load position; every case goes through StructureModel, the chain oracle and the Coq evaluation of preprocess_bar (stage B)",
